@@ -476,7 +476,7 @@ def campaigns(tier, seed):
                     bounds="%d well-formed %s URLs x %d hosts x options" % (len(SEEDS[p]), p, len(SPEC[p]["hosts"])), params={"platform": p}) for p in SPEC]
     cs.append(Campaign("nested-constructions", _nested, "enumeration", exhaustive=True,
                        bounds="routing / redirect prefixes of every platform repeated 2..1200 (quick) / ..6000 (thorough) times, default recursion limit"))
-    cs.append(Campaign("platform-coverage-guided", F.fuzz_campaign("platform", runs=(2500, 150000), max_len=80, dictionary=FUZZ_DICT), "atheris",
+    cs.append(Campaign("platform-coverage-guided", F.fuzz_campaign("platform", runs=(2500, 150000), max_len=80, dictionary=FUZZ_DICT), F.ENGINE,
                        bounds="libFuzzer over UTF-8 strings <= 80 bytes through every function of the six platform modules"))
     cs.append(Campaign("arbitrary-strings", _hyp, "hypothesis", bounds="<=7 tokens from all platforms' hosts/routes/queries + random text, through every function of the six modules"))
     return cs
